@@ -323,3 +323,23 @@ func lastIndexOf(s, sub string) int {
 	}
 	return -1
 }
+
+// markPending records, before a delivery that may crash the whole process (a panic in a
+// goroutine the library itself started cannot be recovered by the receiver shell), which spec and
+// fault is in flight. If the process dies the wrapper turns the marker into a violation with a
+// replay file; clearPending removes it after the delivery returned.
+func markPending(property string, spec any, fault string) {
+	if *flagOut == "" {
+		return
+	}
+	sb, _ := json.Marshal(spec)
+	rf := replayFile{Property: property, Class: property + ":receiver-process-crashed", Msg: "process died while delivering fault " + fault, Details: map[string]any{"fault": fault}, Spec: sb}
+	bts, _ := json.Marshal(rf)
+	_ = os.WriteFile(*flagOut+".pending", bts, 0644)
+}
+
+func clearPending() {
+	if *flagOut != "" {
+		_ = os.Remove(*flagOut + ".pending")
+	}
+}
